@@ -423,7 +423,8 @@ PROPS['C07'] = {
             'end; GC.findReachableAtPacktime is a worklist closure (every root kept, every newly kept object kept at '
             'its revision current at the pack time, all its references kept or still queued - multiset invariant); '
             'GC.findReachableFromFuture establishes KEEP-BACK (every back pointer crossing the pack position names a '
-            'kept revision) and KEEP-CLOSED (the references of EVERY kept revision are kept objects); '
+            'kept revision), KEEP-CLOSED (the references of EVERY kept revision are kept objects) and KEEP-FUTURE (every '
+            'object that existed at the pack time and is referenced by a record written after it is kept); '
             'GC.findReachable composes them from the constructor state; GC.isReachable is the kept predicate; '
             'FileStoragePacker.pack/copyRest/copyOne: the packer returns, holding the commit lock, only after an '
             'end-of-file test at the frontier of the copy against the REAL end of the data file (transactions committed '
